@@ -348,7 +348,12 @@ def upgrade_table(run, f):
                 if fl["name"] == "id" and val != "?self.%d" % [x["name"] for x in aw].index("id"):
                     bad.append("id of the upgraded reference is %s" % val)
                 if f.ty(fl["ty"]).is_adt("tokio::sync::mpsc::Sender"):
-                    j = [x["name"] for x in aw].index(fl["name"]) if fl["name"] in [x["name"] for x in aw] else None
+                    import anchors
+                    # the weak sender of the same channel (same message type), possibly inside a private grouping struct
+                    want_args = [a.s for a in f.ty(fl["ty"]).args]
+                    wp = [p_ for p_, n, t in anchors.field_paths(f, "actor_ref::ActorWeak", lambda ty: ty.k == "adt" and ty.defn.startswith("tokio::sync::mpsc") and "WeakSender" in ty.defn)
+                          if [a.s for a in t.args] == want_args]
+                    j = wp[0] if len(wp) == 1 else None
                     if val != "?strong(?self.%s)" % j:
                         bad.append("field %s of the upgraded reference is %s, not the upgrade of the weak %s" % (fl["name"], val, fl["name"]))
         else:
